@@ -139,6 +139,48 @@ def make_callable(rec, kind, unsafe, alters, forbidden):
         f.alters_data = ""
         f.forbidden = None
         return f
+    if kind == "proxy-forwarding-getattr":
+        # a class-based decorator / proxy: the markers live on the wrapped function and are forwarded by __getattr__
+        inner = rec.mark(rec.function(tag), unsafe, alters, forbidden)
+
+        class Proxy:
+            def __init__(self, f):
+                self._f = f
+
+            def __call__(self, *a, **k):
+                return self._f(*a, **k)
+
+            def __getattr__(self, name):
+                return getattr(self._f, name)
+        return Proxy(inner)
+    if kind == "instance-level-call":
+        # Context.call swaps to obj.__call__ (instance lookup) when that is pass_context-decorated
+        import jinja2
+
+        class CI2:
+            def __call__(self, *a, **k):
+                return "class-level"
+
+        def swapped(ctx, *a, **k):
+            rec.ran.append(tag)
+            return "R"
+        o = CI2()
+        o.__call__ = rec.mark(jinja2.pass_context(swapped), unsafe, alters, forbidden)
+        return o
+    if kind == "repr-raises":
+        class RR:
+            def __call__(self, *a, **k):
+                rec.ran.append(tag)
+                return "R"
+
+            def __repr__(self):
+                raise RuntimeError("repr of the callable raises")
+        return rec.mark(RR(), unsafe, alters, forbidden)
+    if kind == "macro-object":
+        # a Macro of another template's module, marked by the application
+        from jinja2.sandbox import SandboxedEnvironment
+        m = SandboxedEnvironment().from_string("{% macro mm(a=0, k=0) %}{{ probe() }}{% endmacro %}").make_module({"probe": rec.function(tag)}).mm
+        return rec.mark(m, unsafe, alters, forbidden)
     if kind == "partial-of-marked":
         # the markers sit on the function a functools.partial wraps
         return functools.partial(rec.mark(rec.function(tag), unsafe, alters, forbidden), 1)
@@ -193,7 +235,8 @@ def k_rt_gate(ctx, envs):
     for kind, unsafe, alters, forbidden, pol in itertools.product(
             ("function", "lambda", "method", "instance", "class", "partial", "instance-call-marked", "partial-of-marked",
              "pass_context", "pass_environment", "pass_eval_context", "coroutine-function", "generator-function", "classmethod",
-             "staticmethod", "truthy-marker-values", "falsy-marker-values"),
+             "staticmethod", "truthy-marker-values", "falsy-marker-values", "proxy-forwarding-getattr", "instance-level-call",
+             "repr-raises", "macro-object"),
             (0, 1), (0, 1), (0, 1), ("default", "overridden")):
         cases.append((kind, bool(unsafe), bool(alters), bool(forbidden), pol))
     lines = []
@@ -202,13 +245,14 @@ def k_rt_gate(ctx, envs):
         if kind == "falsy-marker-values":
             u = a = f = False
             polarg = "default" if pol == "default" else "1"
-        if pol == "overridden" and kind in ("instance-call-marked", "partial-of-marked"):
+        if pol == "overridden" and kind in ("instance-call-marked", "partial-of-marked", "instance-level-call"):
             polarg = "1"          # the example override looks at the object itself, which carries no marker
         if kind == "instance-call-marked":
-            lines.append(f"gate 0 0 0 {polarg} {int(u)} {int(a)}")      # markers on type(obj).__call__
-        elif kind == "partial-of-marked":
-            lines.append(f"gate 0 0 0 {polarg}")                         # the partial object itself is unmarked
+            lines.append(f"gate 0 0 0 {polarg} {int(u)} {int(a)}")               # markers on type(obj).__call__
+        elif kind == "instance-level-call":
+            lines.append(f"gate 0 0 0 {polarg} 0 0 {int(u)} {int(a)}")           # markers on the instance's own __call__ attribute
         else:
+            # functools.partial of a marked function is seen through by the default predicate (6689262)
             lines.append(f"gate {int(u)} {int(a)} 0 {polarg}")
     out = ctx.driver("sbx", lines)
     for gi, ((kind, u, a, f, pol), model) in enumerate(zip(cases, out)):
@@ -236,13 +280,13 @@ def k_rt_gate(ctx, envs):
         if kind in ("generator-function", "coroutine-function"):
             # the function itself is what the template calls; its body runs on iteration / when awaited only
             real = real.replace("check:0 | value", "check:1 invoke | value") if outcome == "value" else real
-        if pol == "overridden" and kind in ("instance-call-marked", "partial-of-marked"):
+        if pol == "overridden" and kind in ("instance-call-marked", "partial-of-marked", "instance-level-call"):
             rejected = False      # the example override looks at the object itself only
         ctx.case(sample=case if rejected and kind == "method" else None, key=("gate", kind, u, a, f, pol) if rejected else None)
         ctx.count("k_rt_gate")
         if rejected and rec.ran:
             shared.reject_once(ctx, case, f"SandboxedEnvironment.call ran a {kind} the {pol} predicate rejects",
-                               f"C18:gate:{kind}:{pol}" if kind != "partial-of-marked" else "C18:wrapped:functools.partial")
+                               f"C18:gate:{kind}:{pol}")
         elif real != model:
             ctx.model_mismatch("K-rt SandboxedEnvironment.call", case, model, real, None)
         else:
@@ -321,6 +365,82 @@ def precompiled_by_plain_environment(ctx):
                 ctx.validated()
         finally:
             shutil.rmtree(d, ignore_errors=True)
+
+
+def policy_override_stream(ctx):
+    """subclasses overriding is_safe_callable (allow-list, deny-all, deny-macros) x every callee kind incl. Macro objects,
+    caller(), imported macros, loop.cycle, namespace(): the predicate in force decides for EVERY callee"""
+    from jinja2 import DictLoader
+    from jinja2.exceptions import SecurityError
+    from jinja2.runtime import Macro
+    from jinja2.sandbox import ImmutableSandboxedEnvironment, SandboxedEnvironment
+
+    calls = []
+
+    def mk(base, rule):
+        class Env(base):
+            def is_safe_callable(self, obj):
+                verdict = rule(self, obj)
+                calls.append((type(obj).__name__, verdict))
+                return verdict
+        return Env
+
+    rules = {"deny-all": lambda self, obj: False,
+             "allow-list": lambda self, obj: getattr(obj, "__name__", None) in ("ok",),
+             "deny-macros": lambda self, obj: not isinstance(obj, Macro),
+             "allow-all": lambda self, obj: True}
+    lib = {"lib": "{% macro lm() %}LM{% endmacro %}"}
+    templates = {
+        "macro-call": "{% macro m() %}M{% endmacro %}{{ m() }}",
+        "call-block": "{% macro m() %}{{ caller() }}{% endmacro %}{% call m() %}x{% endcall %}",
+        "caller-only": "{% macro m() %}[{{ caller() }}]{% endmacro %}{% call m() %}{{ ok() }}{% endcall %}",
+        "imported-macro": "{% from 'lib' import lm %}{{ lm() }}",
+        "module-macro-as-data": "{{ dm() }}",
+        "plain-function": "{{ ok() }}{{ other() }}",
+        "loop-cycle": "{% for x in [1] %}{{ loop.cycle('a', 'b') }}{% endfor %}",
+        "namespace-global": "{% set ns = namespace(a=1) %}{{ ns.a }}",
+        "recursive-loop": "{% for x in [[1]] recursive %}{{ loop(x) if x is iterable else x }}{% endfor %}",
+        "super-block": "{% extends 'base2' %}{% block b %}{{ super() }}{% endblock %}",
+    }
+    lib["base2"] = "{% block b %}B{% endblock %}"
+    for (rname, rule), (bname, base), mode in itertools.product(rules.items(), (("sandboxed", SandboxedEnvironment), ("immutable", ImmutableSandboxedEnvironment)),
+                                                                ("sync", "async")):
+        env = mk(base, rule)(loader=DictLoader(lib), enable_async=(mode == "async"))
+        for tname, src in templates.items():
+            rec = Rec()
+            ok_fn, other = rec.function("ok"), rec.function("other")
+            ok_fn.__name__, other.__name__ = "ok", "other"
+            dm = SandboxedEnvironment().from_string("{% macro dm() %}{{ probe() }}{% endmacro %}").make_module({"probe": rec.function("dm-body")}).dm
+            del calls[:]
+            try:
+                env.from_string(src).render(ok=ok_fn, other=other, dm=dm)
+                outcome = "ok"
+            except SecurityError:
+                outcome = "SecurityError"
+            except Exception as e:  # noqa: BLE001
+                outcome = "exc:" + type(e).__name__
+            case = {"kind": "policy-override", "rule": rname, "env": bname, "mode": mode, "template": tname, "source": src,
+                    "outcome": outcome, "verdicts": list(calls)[:8], "ran": list(rec.ran)}
+            refused_any = any(not v for _, v in calls)
+            ctx.case(sample=case if rname == "deny-macros" and tname == "call-block" else None,
+                     key=("policy", rname, bname, mode, tname) if refused_any else None)
+            ctx.count("policy_override")
+            # oracle: whatever ran was accepted by the rule; every Call node consulted the predicate (deny-all: nothing runs at all)
+            bad = None
+            if rname == "deny-all" and (rec.ran or (outcome == "ok" and tname != "namespace-global" and not calls)):
+                bad = "a callee ran (or no check was made) although the overridden predicate refuses everything"
+            elif rname == "allow-list" and ("other" in rec.ran or "dm-body" in rec.ran):
+                bad = "a callee outside the allow-list ran"
+            elif rname == "deny-macros" and "dm-body" in rec.ran:
+                bad = "a Macro object ran although the overridden predicate refuses macros"
+            elif rname in ("deny-all", "deny-macros") and tname in ("macro-call", "call-block", "imported-macro", "module-macro-as-data") and outcome != "SecurityError":
+                bad = f"calling a Macro did not raise SecurityError under {rname} ({outcome})"
+            elif refused_any and outcome != "SecurityError":
+                bad = f"the predicate refused a callee but the render did not raise SecurityError ({outcome})"
+            if bad:
+                shared.reject_once(ctx, case, f"{bad}: template {tname} ({bname}, {mode})", f"C18:policy-override:{rname}:{tname}")
+            else:
+                ctx.validated()
 
 
 def history_stream(ctx):
@@ -541,7 +661,7 @@ def callables_under_test():
         ("u", dict(unsafe=True)), ("a", dict(alters=True)), ("fb", dict(forbidden=True)), ("s2", dict()),
         ("o.um", dict(unsafe=True)), ("d.u", dict(unsafe=True)), ("ci", dict(alters=True)),
         ("lst[0]", dict(unsafe=True, forbidden=True)), ("(o|attr('um'))", dict(unsafe=True)),
-        ("cim", dict(unsafe=True)), ("pu", dict(unsafe=True)),
+        ("cim", dict(unsafe=True)), ("pu", dict(unsafe=True)), ("prx", dict(alters=True)), ("ilc", dict(unsafe=True)),
     ]
 
 
@@ -573,10 +693,31 @@ def build_data(rec):
     CIM.__call__.unsafe_callable = True
     import functools
     pu = functools.partial(rec.mark(rec.function("pu", ret=[1]), unsafe=True))
+    class Proxy:
+        def __init__(self, f):
+            self._f = f
+
+        def __call__(self, *a, **k):
+            return self._f(*a, **k)
+
+        def __getattr__(self, name):
+            return getattr(self._f, name)
+    prx = Proxy(rec.mark(rec.function("prx", ret=[1]), alters=True))
+    import jinja2
+
+    class ILC:
+        def __call__(self, *a, **k):
+            return [1]
+
+    def swapped(ctx, *a, **k):
+        rec.ran.append("ilc")
+        return [1]
+    ilc = ILC()
+    ilc.__call__ = rec.mark(jinja2.pass_context(swapped), unsafe=True)
     both = rec.mark(rec.function("lst[0]", ret=[1]), unsafe=True, forbidden=True)
     dd = rec.mark(rec.function("d.u", ret=[1]), unsafe=True)
     return {"u": u, "a": a, "fb": fb, "s2": s2, "s": s, "o": O(), "d": {"u": dd}, "ci": CI(), "lst": [both],
-            "cim": CIM(), "pu": pu}
+            "cim": CIM(), "pu": pu, "prx": prx, "ilc": ilc}
 
 
 TAG = {"(o|attr('um'))": "o.um"}
@@ -635,7 +776,7 @@ def judge_render(ctx, envs, case):
     # under the overridden predicate a callable that only carries the default markers is allowed
     others = [t_ for t_ in rec.ran if t_ != tag and spec_rejected(pol, *{"u": (1, 0, 0), "a": (0, 1, 0), "fb": (0, 0, 1), "o.um": (1, 0, 0),
               "d.u": (1, 0, 0), "ci": (0, 1, 0), "lst[0]": (1, 0, 1)}.get(t_, (0, 0, 0)))]
-    if pol == "overridden" and c in ("cim", "pu"):
+    if pol == "overridden" and c in ("cim", "pu", "prx", "ilc"):
         rejected = False
     case.update(template=src, outcome=outcome, ran=ran, rejected=rejected)
     if outcome == "exc:TemplateSyntaxError" and not rec.ran:
@@ -644,7 +785,7 @@ def judge_render(ctx, envs, case):
         return True
     if (rejected and ran) or others:
         shared.reject_once(ctx, case, f"a callable the {pol} predicate rejects ({c}) ran in the {mode} sandbox through shape {shape!r}",
-                           f"C18:render:{shape}:{pol}" if c != "pu" else "C18:wrapped:functools.partial")
+                           f"C18:render:{shape}:{pol}")
         return False
     # model prediction: the gate refuses with SecurityError; an accepted callable runs
     if rejected and outcome != "SecurityError":
@@ -666,18 +807,21 @@ def run(ctx):
         "Context.call invokes exactly the object it was given (pass_context / pass_environment decoration only adds arguments)",
         "the safety predicate is a function of the callable object (default: its unsafe_callable / alters_data attributes)",
     ]
-    ctx.proof("C18")
     # T5: the current source of SandboxedEnvironment.is_safe_callable and .call, interpreted in Coq,
-    # equals is_safe_callable_default / sandbox_call (check event, then invocation) for every argument
-    sbx_src_tie.source_equations(ctx, ("call",))
+    # equals is_safe_wcallable / sandbox_call (check event, then invocation) for every argument.  coqc compiles
+    # the regenerated files in worker threads while the proof re-check and the streams run; every obligation
+    # is compiled on every run and joined (and judged) at the end of run()
+    finish_equations = sbx_src_tie.start_source_equations(ctx, ("call",))
     # regenerated routing decision table of visit_Call / visit_Getattr / visit_Getitem (what C18_calls_gated relies on)
-    sbx_src_tie.routing_table(ctx)
+    finish_routes = sbx_src_tie.start_routing_table(ctx)
+    ctx.proof("C18")
 
     envs = make_envs()
     k_rt_gate(ctx, envs)
     k_rt_gate_format(ctx, envs)
     shared_bytecode_cache(ctx)
     precompiled_by_plain_environment(ctx)
+    policy_override_stream(ctx)
     history_stream(ctx)
     shared.k_gen(ctx, jinja2, ctx.size(1500, 15000), ctx.size(250, 2500), "C18")
     for idx, ((c, _), shape, pol, mode) in enumerate(itertools.product(callables_under_test(), SHAPES, ("default", "overridden"), ("sync", "async"))):
@@ -694,6 +838,8 @@ def run(ctx):
         ctx.count("place_" + case["place"])
         if ok:
             ctx.validated()
+    finish_equations()
+    finish_routes()
 
 
 def replay(ctx, data):
